@@ -65,6 +65,10 @@ def kernel_teardown(ctx, esc, rule):
     ctx.check(len(sends) == 1 and bool(handled) and not rer, rule,
               'delete_sa tolerates a kernel refusal (already gone) and reports it', key=(rule, 'delete-tolerant'), site=ctx.site(dsa, dsa.node),
               detail={'raises': [tq.text(t, 100) for t in rer]})
+    # ... and building the request cannot fail either: the SPI it names fits the 4-octet field of the kernel's SA identifier (a SPI of
+    # another length, taken from a peer's proposal, makes ctypes raise TypeError - at installation and again at every removal attempt)
+    from .c05 import ah_esp_spi_width
+    ah_esp_spi_width(ctx, rule)
 
 
 def run(ctx):
